@@ -48,6 +48,7 @@ from fortls.helper_functions import (
     strip_line_label,
     strip_strings,
 )
+from fortls.json_templates import diagnostic_json
 
 from .associate import Associate
 from .ast import FortranAST
@@ -1218,19 +1219,26 @@ class FortranFile:
             else:
                 COMMENT_LINE_MATCH = FRegex.FREE_COMMENT
             for i, line in enumerate(self.contents_split):
+                # Built afresh on every check: not added to the parse errors of
+                # the AST, which live until the next parse
                 if COMMENT_LINE_MATCH.match(line) is None:
                     if 0 < max_line_length < len(line):
-                        self.ast.add_error(
-                            msg_line, Severity.warn, i + 1, max_line_length, len(line)
+                        diagnostics.append(
+                            diagnostic_json(
+                                i, max_line_length, i, len(line), msg_line, Severity.warn
+                            )
                         )
                 else:
                     if 0 < max_comment_line_length < len(line):
-                        self.ast.add_error(
-                            msg_comment,
-                            Severity.warn,
-                            i + 1,
-                            max_comment_line_length,
-                            len(line),
+                        diagnostics.append(
+                            diagnostic_json(
+                                i,
+                                max_comment_line_length,
+                                i,
+                                len(line),
+                                msg_comment,
+                                Severity.warn,
+                            )
                         )
         errors, diags_ast = self.ast.check_file(obj_tree)
         diagnostics += diags_ast
